@@ -44,6 +44,8 @@ M = [
     ('closure', 'Task.parent.getter', 'pjplan/task.py', "        if self.__parent is None or self.__parent.id == EMPTY_TASK_ID:\n            return None", "        if self.__parent is None:\n            return None", 'hidden'),
     ('query', 'search', 'pjplan/task.py', "                    if val is None or not val <= v:", "                    if val is None or not val < v:", 'search-is-true'),
     ('query', 'search', 'pjplan/task.py', '                elif k.endswith("_is_none_"):\n                    k = k[0:-9]', '                elif k.endswith("_is_none_"):\n                    k = k[0:-8]', 'search-is-true'),
+    ('query', '_ImmutableTaskList.__call__', 'pjplan/task.py', "            if callable(key):\n                return _ImmutableTaskList([t for t in self if key(t)])", "            if callable(key):\n                return _ImmutableTaskList([t for t in self])", 'callable'),
+    ('query', '_ImmutableTaskList.__call__', 'pjplan/task.py', "        if kwargs is None:\n            return _ImmutableTaskList([t for t in self._list])", "        if kwargs is not None:\n            return _ImmutableTaskList([t for t in self._list])", 'keyword-filters'),
     ('query', '__get_task_attribute', 'pjplan/task.py', "        if attribute_name in t.__dict__ or attribute_name in ('estimate', 'spent'):", "        if attribute_name in t.__dict__:", 'public-attribute'),
     ('text', 'colored_text', 'pjplan/utils.py', "    text = text + ' ' * (width - len(text))", "    text = text + ' ' * (width - len(text) - 1)", 'visible-width'),
     ('text', '_TextTableRow.repr', 'pjplan/utils.py', "                text = colored_text('  ', width[i] + 2, self.color, self.bg_color)", "                text = colored_text('  ', width[i], self.color, self.bg_color)", 'width'),
